@@ -1600,8 +1600,12 @@ def _uninit_findings(fn):
     return out
 
 
-def rule_uninit(ctx):
-    r = RuleResult('R-uninit', 'no result is built on uninitialised memory: (a) the allocators named zeros (`__zeros__`, `__zeros_like__`, `UTPM.zeros`, '
+def rule_uninit_tracer(ctx):
+    return rule_uninit(ctx, only=(TRACER,), rid='R-uninit.tracer', floor=70)
+
+
+def rule_uninit(ctx, only=None, rid='R-uninit', floor=300):
+    r = RuleResult(rid, 'no result is built on uninitialised memory: (a) the allocators named zeros (`__zeros__`, `__zeros_like__`, `UTPM.zeros`, '
                                '`UTPM.zeros_like`, `ones_like`) obtain their storage from numpy.zeros / zeros_like - every accumulating kernel and every adjoint '
                                'relies on it; (b) outside the kernels (which E2 covers with O6 / coverage) a buffer from numpy.empty / empty_like is defined as a '
                                'whole before use - a buffer that only receives stores with a constant first index keeps uninitialised higher coefficients, whose '
@@ -1610,10 +1614,10 @@ def rule_uninit(ctx):
     # positive example for the zero-count clause (b)
     probe = ast.parse("def f(D, P, M):\n    ybar = numpy.empty((D, P, M))\n    ybar[0, ...] = numpy.eye(M)\n    return ybar\n").body[0]
     if len(_uninit_findings(probe)) != 1:
-        r.unknown('R-uninit:selftest', 'the matcher no longer recognises its positive example')
+        r.unknown(rid + ':selftest', 'the matcher no longer recognises its positive example')
     # (a) allocator contract
     n_alloc = 0
-    for modname in ('algopy.utpm.algorithms', 'algopy.utpm.utpm'):
+    for modname in (() if only else ('algopy.utpm.algorithms', 'algopy.utpm.utpm')):
         mi = m.modules.get(modname)
         if mi is None:
             continue
@@ -1627,14 +1631,14 @@ def rule_uninit(ctx):
                 n_alloc += 1
                 bad = [c for c in allocs if _alloc_kind(c) == 'empty']
                 if bad:
-                    r.bad(Finding('R-uninit', _f(fi), 'allocator:' + norm(bad[0])[:40], '%s hands out uninitialised memory (`%s`): callers accumulate into what it returns'
+                    r.bad(Finding(rid, _f(fi), 'allocator:' + norm(bad[0])[:40], '%s hands out uninitialised memory (`%s`): callers accumulate into what it returns'
                                   % (fi.qualname, norm(bad[0])[:50]), fi.file, true_line(bad[0].lineno)))
                 else:
                     r.ok(construct='allocator:' + _f(fi), nontrivial=True, sample='%s: `%s`' % (fi.qualname, norm(allocs[0])[:50]))
-    if n_alloc < 4:
-        r.unknown('R-uninit:allocators', 'fewer than 4 zero-allocators found (%d)' % n_alloc)
+    if n_alloc < 4 and not only:
+        r.unknown(rid + ':allocators', 'fewer than 4 zero-allocators found (%d)' % n_alloc)
     # (b) partly defined uninitialised buffers
-    for modname in UNINIT_SCOPE:
+    for modname in (only or UNINIT_SCOPE):
         mi = m.modules.get(modname)
         if mi is None:
             continue
@@ -1644,8 +1648,72 @@ def rule_uninit(ctx):
         for fi in fns:
             hits = _uninit_findings(fi.node)
             for st, why in hits:
-                r.bad(Finding('R-uninit', _f(fi), 'buffer:' + norm(st)[:50], '%s: `%s` %s' % (fi.qualname, norm(st)[:60], why), fi.file, true_line(st.lineno)))
+                r.bad(Finding(rid, _f(fi), 'buffer:' + norm(st)[:50], '%s: `%s` %s' % (fi.qualname, norm(st)[:60], why), fi.file, true_line(st.lineno)))
             if not hits:
                 r.ok(construct=_f(fi))
-    r.floor = 300
+    r.floor = floor
+    return r
+
+
+def _coercions(fn):
+    """[(node, what)]: conversions of a value derived from a parameter of fn to a fixed dtype / Python type:
+    numpy.asarray / array / asanyarray / ascontiguousarray(v, dtype=..), v.astype(..), float(v) / int(v) / complex(v), v.real / v.imag"""
+    a = fn.args
+    params = {x.arg for x in a.posonlyargs + a.args + a.kwonlyargs} - {'self', 'cls'}
+    derived = set(params)
+    for _ in range(3):
+        for n in ast.walk(fn):
+            tg, src = None, None
+            if isinstance(n, ast.Assign) and len(n.targets) == 1 and isinstance(n.targets[0], ast.Name):
+                tg, src = [n.targets[0].id], n.value
+            elif isinstance(n, (ast.For, ast.comprehension)):
+                tg, src = [x.id for x in ast.walk(n.target) if isinstance(x, ast.Name)], n.iter
+            if tg and src is not None and any(isinstance(x, ast.Name) and x.id in derived for x in ast.walk(src)):
+                derived |= set(tg)
+    out = []
+
+    def from_param(e):
+        return any(isinstance(x, ast.Name) and x.id in derived for x in ast.walk(e))
+    for n in ast.walk(fn):
+        if isinstance(n, ast.Call):
+            d = dotted_name(n.func) or ''
+            if d in ('numpy.asarray', 'numpy.array', 'numpy.asanyarray', 'numpy.ascontiguousarray', 'numpy.asfarray') and n.args and from_param(n.args[0]) \
+                    and (d == 'numpy.asfarray' or any(k.arg == 'dtype' and not (isinstance(k.value, ast.Constant) and k.value.value is None) for k in n.keywords)
+                         or len(n.args) > 1):
+                out.append((n, 'converts an argument to a fixed dtype: `%s`' % norm(n)[:60]))
+            elif isinstance(n.func, ast.Attribute) and n.func.attr == 'astype' and from_param(n.func.value):
+                out.append((n, 'casts an argument: `%s`' % norm(n)[:60]))
+            elif isinstance(n.func, ast.Name) and n.func.id in ('float', 'int', 'complex') and len(n.args) == 1 and from_param(n.args[0]) \
+                    and not isinstance(n.args[0], ast.Call):
+                out.append((n, 'converts an argument to a Python %s: `%s`' % (n.func.id, norm(n)[:60])))
+    return out
+
+
+_DRIVER_NAMES = {'gradient', 'jacobian', 'jac_vec', 'vec_jac', 'hessian', 'hess_vec', 'vec_hess', 'vec_hess_vec'}
+
+
+def rule_replay_coerce(ctx):
+    return rule_drv_coerce(ctx, which='replay')
+
+
+def rule_drv_coerce(ctx, which='drivers'):
+    r = RuleResult('R-drv-coerce' if which == 'drivers' else 'R-replay-coerce', 'the drivers and the replay entry points of CGraph hand the caller\'s values on with the dtype they have: no '
+                                   '`numpy.asarray(x, dtype=float)`, `.astype(...)`, `float(x)` of an argument - a complex (or float32, integer) input would '
+                                   'silently be evaluated as another number. `numpy.asarray(x)` without a dtype keeps the value and is the accepted idiom')
+    m = ctx.model
+    ci = m.cls('CGraph')
+    if ci is None:
+        raise AnalysisError('R-drv-coerce', TRACER, 'class CGraph vanished')
+    probe = ast.parse("def function(self, x_list):\n    x_list = [numpy.asarray(x, dtype=float) for x in x_list]\n    return x_list\n").body[0]
+    if len(_coercions(probe)) != 1:
+        r.unknown('R-drv-coerce:selftest', 'the matcher no longer recognises its positive example')
+    for name, fi in sorted(ci.methods.items()):
+        if (name in _DRIVER_NAMES) != (which == 'drivers'):
+            continue
+        hits = _coercions(fi.node)
+        for node, what in hits:
+            r.bad(Finding(r.rule, _f(fi), norm(node)[:60], '%s %s' % (fi.qualname, what), fi.file, true_line(node.lineno)))
+        if not hits:
+            r.ok(construct=_f(fi))
+    r.floor = 6
     return r
